@@ -36,9 +36,11 @@ class Engine(StmtMixin, CallMixin, ExprMixin, EngineBase):
                 st.cls[pn] = cls
         for g, gs in k.get("ghost", {}).items():
             st.ghost[g] = c.fresh(gs, "G_" + g)
+        for g, gs in k.get("ghost_local", {}).items():
+            st.ghost[g] = c.fresh(gs, "G_" + g)
         for f in self.m.fields:
             self.field(st, f)
-        for r in k.get("requires", []):
+        for r in list(k.get("requires", [])) + list(k.get("ghost_init", [])):
             st.pc.append(self.spec(r, st, None).s)
         return st
 
